@@ -16,7 +16,7 @@ import (
 	"verif/gen"
 )
 
-const c18LibKinds = 13
+const c18LibKinds = 14
 
 func init() {
 	Register(&Prop{
@@ -136,7 +136,7 @@ func c18Lib(c *Ctx, o *Obs, r *rand.Rand, kind int) {
 	text := m.Newick()
 	seed := r.Int63()
 	names := []string{"RandomUniformBinaryTree", "RandomYuleBinaryTree", "RandomCaterpillarBinaryTree", "RandomBalancedBinaryTree", "ShuffleTips", "Resolve",
-		"RotateInternalNodes", "ParsimonyAsr(protein,X)", "ParsimonyAcr", "WriteNexus(translate)", "RenameAuto", "ParsimonyAsr(random-resolve)", "ParsimonyAcr(random-resolve)"}
+		"RotateInternalNodes", "ParsimonyAsr(protein,X)", "ParsimonyAcr", "WriteNexus(translate)", "RenameAuto", "ParsimonyAsr(random-resolve)", "ParsimonyAcr(random-resolve)", "RerootOutGroup(non-monophyletic)"}
 	name := names[kind]
 	o.Class = "lib/" + name
 	o.Sample = fmt.Sprintf("%s seed %d on %s", name, seed, Trunc(text, 200))
@@ -222,6 +222,13 @@ func c18Lib(c *Ctx, o *Obs, r *rand.Rand, kind int) {
 			id := 1
 			err := t.RenameAuto(true, true, 8, &id, nm)
 			return t.Newick() + fmt.Sprint(err)
+		case 13:
+			t := mustParse(text)
+			tips := m.SortedTips()
+			rr := rand.New(rand.NewSource(seed))
+			og := []string{tips[rr.Intn(len(tips))], tips[rr.Intn(len(tips))], tips[rr.Intn(len(tips))]}
+			err := t.RerootOutGroup(false, false, og...)
+			return fmt.Sprint(og, err) + t.Newick()
 		case 12:
 			t := mustParse(text)
 			st := map[string]string{}
